@@ -27,5 +27,5 @@ CONSTANTS
 INIT Init
 NEXT Next
 VIEW View
-INVARIANTS TypeOK CapsCounted CountedAreLive ReservationSound CircuitSound MaxCircuits Rollback TagsWhileReserved Limits HandshakeBounded
+INVARIANTS TypeOK Caps CapsCounted CountedAreLive LiveAreCounted TagsRollback ReservationSound CircuitSound MaxCircuits Rollback TagsWhileReserved Limits HandshakeBounded
 PROPERTIES ConnectOnlyIfAllowed GrantOnlyIfAllowed DeliveredWithinLimit EndedMeansRolledBack
